@@ -119,7 +119,9 @@ impl Shadow {
             return Class::MustReject("kind");
         }
         if v.serialized_fields != hv.serialized_fields {
-            return Class::MustReject("payload");
+            // Other bytes that decode to the same field values were still never signed.
+            let reencoded = crate::mutate::same_struct_other_bytes(&hv.kind, &hv.serialized_fields, &v.serialized_fields);
+            return Class::MustReject(if reencoded { "payload-reencoded" } else { "payload" });
         }
         if v.signature != hv.signature {
             return Class::MustReject("signature");
